@@ -3,7 +3,7 @@ from registry_common import COMMON_ASSUME
 ENTRY = dict(
         title="No received frame stalls the pipeline; controller requests are always answered",
         design_ref="DESIGN.md section 6 / C09",
-        prop_modules=["C09", "C09Producer", "C09Fanout", "C09Pipe"],
+        prop_modules=["C09", "C09Producer", "C09Fanout", "C09Pipe", "C09Contain"],
         technique="Lean 4 pool machine (read queue, unfinished counter, n symmetric consumers, per-frame class and 'handling raises' input bit) "
                   "with a conservation invariant proved for all frame sequences and all consumer schedules + correspondence with a real "
                   "AsyncProtocol on a fake transport under a virtual loop + Lean judge C09.spec on what the implementation showed",
@@ -42,6 +42,10 @@ ENTRY = dict(
                 "theorem (C09Fanout.block_delivered_once, absent_not_delivered, nothing_else_delivered, one_object_per_index, binding_stable, holds: for every message sequence) "
                 "+ correspondence (sensor-data / mixer- / thermostat-parameter messages through a real AsyncProtocol; Fanout.spec judged on the observation; deliveries also counted at the sub-devices' event subscribers)",
             "the model distinguishes contained from uncontained consumers": "theorem (uncontained_counterexample)",
+            "WHICH exception classes are contained: every subclass of Exception raised while obtaining the entry or decoding / handling is dropped (OSError and TimeoutError included), under every logging configuration; from reader.read() ProtocolError and any other Exception continue, OSError / TimeoutError are a lost connection":
+                "theorem (C09Contain.producer_reaction_table, consumer_contains_every_exception, consumer_accounts, contain_bit_true, undecodable_frame_is_dropped, producer_machine_agrees, reader_site_would_lose; "
+                "the except clauses of frame_producer / frame_consumer, the calls inside try / finally and the issubclass relation are read from the source by the translator: Generated/Pipeline.lean) "
+                "+ correspondence (decoder and reader faults of every builtin exception class injected under every logging configuration: observed fate vs driver op c09exc)",
             "which payloads make handling raise": "correspondence (input bit from the implementation's decoder; C05)",
             "frame codes 64/48/192/176": "table (codes, generated frame table)",
             "producer stage: the loop stops only on a read/write loss or a foreign disconnect, never on a protocol error, whatever the noise":
